@@ -70,7 +70,9 @@ def render(body, prefix="m", style=None, rng=None):
 
     def do_body(items, group, depth):
         r.max_depth = max(r.max_depth, depth)
-        if items and items[0][0] != "code":
+        if items and items[0][0] == "bare":
+            items = items[1:]           # no code line is forced in front (a header that is nothing but its include guard)
+        elif items and items[0][0] != "code":
             code(group)
         for it in items:
             k = it[0]
@@ -113,6 +115,10 @@ def render(body, prefix="m", style=None, rng=None):
                 raise ValueError(k)
 
     do_body(body, 0, 0)
+    if r.groups[0]["marker"] is None:
+        # nothing but a guard at top level: the file is reached iff the first code line inside the guard is
+        first = next((it["marker"] for it in r.items if it["kind"] == "code"), None)
+        r.groups[0]["marker"] = first
     return r
 
 
